@@ -1072,8 +1072,15 @@ class Task:
             if not k.startswith('_'):
                 cloned.__setattr__(k, self.__getattribute__(k))
 
-        for k, v in kwargs.items():
-            cloned.__setattr__(k, v)
+        # A keyword that is rejected leaves the relations set by the keywords before it undone: a clone
+        # that could not be built is attached to nothing
+        for k in ('children', 'predecessors', 'successors'):
+            if kwargs.get(k) is not None and type(kwargs[k]) is not Task:
+                kwargs[k] = _to_list(kwargs[k])
+        with _AllOrNothing([cloned, kwargs.get('parent')] + _to_list(kwargs.get('children'))
+                           + _to_list(kwargs.get('predecessors')) + _to_list(kwargs.get('successors'))):
+            for k, v in kwargs.items():
+                cloned.__setattr__(k, v)
 
         return cloned
 
